@@ -178,7 +178,7 @@ CHECKS = {
         'matcher = parser resolution in general - a feed advertising only a join/reference/sub-query is selected and then '
         'unparseable. Correspondence: pools of 1-3 feeds with configured priorities and arbitrary advertised source subsets, '
         'single statements and sequences of statements on one long-lived importer, followed by the selected feed\'s real parser. '
-        'Descending-stable ordering of the pool is modelled and exercised but its sortedness is not separately proved.',
+        'The walking order is proved to be a permutation of the pool, descending by priority and stable on ties.',
         BASE_NOTE + 'Provider/config plumbing for priorities is exercised by the correspondence only.',
         'DESIGN.md section 5 C09',
     ),
